@@ -11,7 +11,12 @@ correspond:
                with near-collisions in every scope kind.
 oracle (independent of Lean):
   run main.execute per target; when it returns 0, read the generated files (c21_decl) and report
-  every name declared twice in one scope / fewer JSON definitions or properties than entities.
+  every name declared twice in one scope / fewer JSON definitions or properties than entities / fewer named XSD root
+  children per tag than entities (a repeated definition that was silently merged or dropped shows only in the count).
+
+Input streams of the meta-model part: corpus, `enumerated_mms` (one hand-made model per scope kind), `enumerated_pair_mms`
+(seed independent matrix: every kind combination of two entities x name pairs that collide under SOME target's conversion,
+incl. entities of equal content, class vs a type called like its interface, literal and property pairs), seeded random.
 """
 from __future__ import annotations
 
@@ -280,16 +285,43 @@ def random_mm(rng: Any, seed_kind: Optional[str] = None, with_methods: bool = Tr
     enums = [t for t in types if t["kind"] == "enum"]
     c = rng.choice(classes)
     if kind == "structures":
-        a = rng.choice([t for t in types if t["kind"] != "cprim"])
-        new = dict(rng.choice(classes), name=variant(a["name"], keep_first=True), parent=None, props=[["p", "int"]], methods=[], with_model_type=False)
-        new["abstract"] = rng.random() < 0.3
+        # a second entity of any kind whose name nearly equals the name of an existing one; in 40 % of the cases of EQUAL
+        # content (same properties / same literal values), so that the two generated definitions are equal as well
+        a = rng.choice(types)
+        nm = variant(a["name"], keep_first=True)
+        same = rng.random() < 0.4
+        r = rng.random()
+        new: Dict[str, Any]
+        if (same and a["kind"] == "enum") or (not same and r < 0.2):
+            new = {"kind": "enum", "name": nm, "literals": ["A"]}
+            if same:
+                a["values"] = [f"w{k}" for k in range(len(a["literals"]))]
+                new["literals"] = list(a["literals"])
+                new["values"] = list(a["values"])
+                if rng.random() < 0.5:
+                    # (the definition is a sorted set of values: neither the names nor the order of the literals matter)
+                    new["literals"] = [f"Lit_{k}" for k in range(len(a["literals"]))][::-1]
+                    new["values"] = list(a["values"])[::-1]
+        elif (same and a["kind"] == "cprim") or (not same and r < 0.3):
+            new = {"kind": "cprim", "name": nm}
+        else:
+            new = dict(rng.choice(classes), name=nm, parent=None, props=[["p", "int"]], methods=[], with_model_type=False)
+            new["abstract"] = rng.random() < 0.3
+            if same and a["kind"] == "class":
+                new["props"] = [list(c21_mm.prop_pair(p)) for p in a["props"]]
+                new["abstract"] = False
         types.insert(rng.randrange(len(types) + 1), new)
-        classes.append(new)
+        if new["kind"] == "class":
+            classes.append(new)
     elif kind == "interface":
         a = rng.choice(classes)
         nm = "I_" + a["name"]
-        if rng.random() < 0.5:
+        r = rng.random()
+        if r < 0.3:
             nm = "I" + a["name"][0].lower() + a["name"][1:]
+        elif r < 0.8:
+            # capital kept: the front end reserves only `I_`; Go keeps capitalised parts, so this is `I<Name>` there
+            nm = "I" + a["name"]
         if nm not in used_names:
             used_names.add(nm)
             if rng.random() < 0.5:
@@ -414,7 +446,7 @@ def enumerated_mms() -> List[Dict[str, Any]]:
         mm([cls("Something", ["x"], ["X"])]),
         mm([cls("Something", ["x"], ["do_it", "do_It"])]),
         mm([cls("Something", ["x"], ["get_x"])]),
-        mm([cls("Base", ["x"], abstract=True), cls("Something", ["X"], parent="Base")]),
+        mm([cls("Stem", ["x"], abstract=True), cls("Something", ["X"], parent="Stem")]),
         mm([enum("Color", ["Red_one", "Red_One"]), cls("Something", ["x"])]),
         mm([enum("Color", ["Red_one", "red_one"]), cls("Something", ["x"])]),
         mm([enum("Color", ["Red_1", "Red1"]), cls("Something", ["x"])]),
@@ -435,13 +467,160 @@ def enumerated_mms() -> List[Dict[str, Any]]:
         mm(base, [], ["matches_x", "matches__x"]),
         mm([cls("Model_type", ["x"])]),
         mm([enum("Model_type", ["A"]), cls("Something", ["x"])]),
-        mm([cls("Base", ["x"], abstract=True), cls("Leaf", ["y"], parent="Base"), cls("Base_abstract", ["z"])]),
+        mm([cls("Stem", ["x"], abstract=True), cls("Leaf", ["y"], parent="Stem"), cls("Stem_abstract", ["z"])]),
         mm([enum("Color", ["Red"]), cls("COLOR", ["x"])]) | {"types": [enum("Color", ["Red"]), {"kind": "class", "name": "COLOR", "abstract": False, "parent": None, "props": [["c", "Color"]], "methods": []}]},
         mm([{"kind": "cprim", "name": "Non_empty"}, cls("Non_Empty", ["x"])]),
         mm([cls("something", ["x"])]),
         mm([cls("Something", ["type", "Type"])]),
         mm([cls("Something", ["a__b", "a_b"])]),
     ]
+    return out
+
+
+# ---- seed-independent pair matrix (added after the seeded changes C21-2 / C21-3)
+#
+# Pairs of DIFFERENT source names that some (not every) target conversion maps to one generated name.  The pools are
+# fixed text (never computed with the project's naming functions, so a changed naming function cannot move them).
+
+TYPE_NAME_PAIRS = [
+    ("Some_URL", "Some_Url"),      # abbreviation vs capitalised part: the camel-case targets, JSON, XSD
+    ("Some_url", "Some_Url"),      # lower vs capitalised part: every target
+    ("Some__thing", "Some_thing"),  # empty part
+    ("Thing_1", "Thing1"),         # digit part joined
+    ("COLOR", "Color"),            # all upper vs capitalised
+    ("Thing_", "Thing"),           # trailing underscore
+    ("SomeThing", "Something"),    # inner capital (`capitalize()` lowers the rest; Go keeps it)
+    ("X_Y", "XY"),                 # single-letter parts: only the abbreviation-keeping targets (python, golang)
+    ("Thing_ID", "Thing_id"),
+]
+
+# (class, other type): the name of the other type equals `I` + the generated name of the class where capitalised parts
+# are kept (golang); the front end reserves only the prefix `I_`.  The last pair is the control (no target collides).
+INTERFACE_PAIRS = [
+    ("Foo", "IFoo"),
+    ("Foo_bar", "IFoo_bar"),
+    ("Foo_bar", "IFooBar"),
+    ("URL", "IURL"),
+    ("X", "IX"),
+    ("Foo", "Ifoo"),
+]
+
+LITERAL_NAME_PAIRS = [
+    ("Red_one", "Red_One"), ("Red_1", "Red1"), ("URL_x", "Url_x"), ("red", "RED"), ("A_b", "Ab"), ("a__b", "a_b"), ("X_Y", "XY"),
+    ("Some_ID", "Some_id"),
+]
+
+PROPERTY_NAME_PAIRS = [
+    ("some_URL", "some_url"), ("a__b", "a_b"), ("x_1", "x1"), ("URL_of", "url_of"), ("someThing", "something"), ("x_Y", "xY"),
+    ("value_ID", "value_Id"),
+]
+
+ENTITY_KINDS = ["leaf", "abstract", "parent", "enum", "cprim"]
+
+
+def _cls(name: str, props: Sequence[Any] = (), abstract: bool = False, parent: Optional[str] = None) -> Dict[str, Any]:
+    return {
+        "kind": "class", "name": name, "abstract": abstract, "parent": parent,
+        "props": [[p, "int"] if isinstance(p, str) else list(p) for p in props], "methods": [],
+    }
+
+
+def _entity(kind: str, name: str, tag: str, same: bool) -> List[Dict[str, Any]]:
+    """One entity of the given kind called `name` (+ what it needs: a concrete child).  `same`: the content does not
+    depend on `tag`, so two entities of one kind get EQUAL definitions."""
+    own = "x" if same else {"a": "x", "b": "y"}[tag]
+    child = _cls(f"Child_of_{tag}", [f"own_{tag}"], parent=name)
+    if kind == "leaf":
+        return [_cls(name, [own])]
+    if kind == "abstract":
+        return [_cls(name, [own], abstract=True), child]
+    if kind == "parent":
+        return [_cls(name, [own]), child]
+    if kind == "enum":
+        if same or tag == "a":
+            return [{"kind": "enum", "name": name, "literals": ["First", "Second"], "values": ["first", "second"]}]
+        return [{"kind": "enum", "name": name, "literals": ["Third"], "values": ["third"]}]
+    return [{"kind": "cprim", "name": name}]
+
+
+def pair_mm(ka: str, na: str, kb: str, nb: str, same: bool = False, swap: bool = False, holder: bool = False) -> Dict[str, Any]:
+    a, b = _entity(ka, na, "a", same), _entity(kb, nb, "b", same)
+    types = (b + a) if swap else (a + b)
+    if holder:
+        # the two entities are USED as property types (XSD emits a simpleType only for used enumerations, the JSON
+        # schema a `_choice` definition only for used abstract classes)
+        types.append(_cls("Holder", [["ref_a", na], ["ref_b", nb]]))
+    elif not any(t["kind"] == "class" and not t["abstract"] for t in types):
+        # (the C# generator refuses a model without any concrete class: not this property's subject)
+        types.append(_cls("Anchor", ["z"]))
+    return {"types": types, "consts": [], "funcs": [], "seeded": f"pair:{ka}/{kb}" + (":same" if same else "")}
+
+
+def enumerated_pair_mms() -> List[Dict[str, Any]]:
+    """Seed independent: two entities of every kind combination (leaf class / abstract class / concrete class with a
+    descendant / enumeration / constrained primitive) whose source names differ but collide under some target's
+    conversion, incl. entities of EQUAL content; a class vs a type called like its interface; literal pairs; property
+    pairs at every place of a hierarchy."""
+    out: List[Dict[str, Any]] = []
+    combos = [(ka, kb) for i, ka in enumerate(ENTITY_KINDS) for kb in ENTITY_KINDS[i:]]
+    k = 0
+    for ci, (ka, kb) in enumerate(combos):
+        for j in range(3):
+            na, nb = TYPE_NAME_PAIRS[k % len(TYPE_NAME_PAIRS)]
+            k += 1
+            out.append(pair_mm(ka, na, kb, nb, swap=(ci + j) % 2 == 1, holder=j != 1))
+        if ka == kb or {ka, kb} <= {"leaf", "abstract", "parent"}:
+            for j in range(2):
+                na, nb = TYPE_NAME_PAIRS[(ci + 4 * j) % len(TYPE_NAME_PAIRS)]
+                out.append(pair_mm(ka, na, kb, nb, same=True, swap=j == 1, holder=j == 0))
+    # the seeds' own witnesses of the equal-definition case (one key for two entities)
+    out.append(pair_mm("enum", "Some_URL", "enum", "Some_url", same=True, holder=True))
+    out.append(pair_mm("leaf", "Thing_ID", "leaf", "Thing_id", same=True))
+    # class vs a type called like its interface
+    k = 0
+    for na, nb in INTERFACE_PAIRS:
+        for kb in ENTITY_KINDS:
+            ka = ["leaf", "parent", "abstract"][k % 3]
+            out.append(pair_mm(ka, na, kb, nb, swap=k % 2 == 1, holder=k % 3 == 0))
+            k += 1
+    out.append(pair_mm("leaf", "Foo", "leaf", "IFoo", same=True))
+    # two leaves beneath one abstract class
+    out.append({"types": [_cls("Stem", ["b"], abstract=True), _cls("Foo", ["x"], parent="Stem"), _cls("IFoo", ["y"], parent="Stem")], "consts": [], "funcs": []})
+    # an enumeration `I` whose literal is called like a class: Go's global constant `IFoo` vs the interface of `Foo`
+    out.append({"types": [_cls("Foo", ["x"]), {"kind": "enum", "name": "I", "literals": ["Foo"]}], "consts": [], "funcs": []})
+    out.append({"types": [_cls("Foo", ["x"], abstract=True), _cls("Leaf", ["y"], parent="Foo"), {"kind": "enum", "name": "I", "literals": ["Foo", "Bar"]}], "consts": [], "funcs": []})
+    # keys derived from a class with descendants (`_abstract`, `_choice`, `_t`) vs a type called like that
+    for suffix in ("abstract", "choice", "t", "Choice"):
+        for kb in ("leaf", "enum"):
+            out.append(pair_mm("parent" if suffix != "choice" else "abstract", "Stem", kb, f"Stem_{suffix}", holder=True))
+    # literal pairs within one enumeration (used and unused); the same pair in two enumerations never collides
+    for i, (la, lb) in enumerate(LITERAL_NAME_PAIRS):
+        e = {"kind": "enum", "name": "Color", "literals": ["Other", la, lb] if i % 2 else [la, lb]}
+        types: List[Dict[str, Any]] = [e, _cls("Something", [["c", "Color"]] if i % 3 else ["x"])]
+        out.append({"types": types, "consts": [], "funcs": []})
+    out.append({"types": [{"kind": "enum", "name": "Color", "literals": ["Red_one"]}, {"kind": "enum", "name": "Hue", "literals": ["Red_One"]}, _cls("Something", ["x"])], "consts": [], "funcs": []})
+    # Go: literals are global constants — enum+literal vs enum+literal, vs a class, vs an enumeration
+    out.append({"types": [{"kind": "enum", "name": "Color", "literals": ["Red_one"]}, {"kind": "enum", "name": "Color_red", "literals": ["One"]}, _cls("Something", ["x"])], "consts": [], "funcs": []})
+    out.append({"types": [{"kind": "enum", "name": "Color", "literals": ["Red_one"]}, {"kind": "enum", "name": "ColorRed", "literals": ["One"]}, _cls("Something", ["x"])], "consts": [], "funcs": []})
+    out.append({"types": [{"kind": "enum", "name": "Color", "literals": ["Red"]}, {"kind": "enum", "name": "ColorRed", "literals": ["A"]}, _cls("Something", ["x"])], "consts": [], "funcs": []})
+    out.append({"types": [{"kind": "enum", "name": "Color", "literals": ["URL"]}, _cls("ColorURL", ["x"])], "consts": [], "funcs": []})
+    # property pairs: both own / abstract parent + child / grandparent + grandchild / concrete parent + child / siblings
+    for i, (pa, pb) in enumerate(PROPERTY_NAME_PAIRS):
+        place = i % 4
+        if place == 0:
+            types = [_cls("Something", [pa, "between", pb])]
+        elif place == 1:
+            types = [_cls("Stem", [pa], abstract=True), _cls("Something", [pb], parent="Stem")]
+        elif place == 2:
+            types = [_cls("Ground", [pa], abstract=True), _cls("Stem", ["mid"], abstract=True, parent="Ground"), _cls("Something", [pb], parent="Stem")]
+        else:
+            types = [_cls("Stem", [pa]), _cls("Something", ["mid", pb], parent="Stem")]
+        out.append({"types": types, "consts": [], "funcs": []})
+        if i < 3:
+            # two siblings with the colliding pair split between them: no shared scope, every target must accept
+            out.append({"types": [_cls("Stem", ["b"], abstract=True), _cls("One", [pa], parent="Stem"), _cls("Two", [pb], parent="Stem")], "consts": [], "funcs": []})
+    # class-typed and enumeration-typed colliding properties (the accessor / setter names of typed members)
+    out.append({"types": [{"kind": "enum", "name": "Color", "literals": ["Red"]}, _cls("Leaf", ["z"]), _cls("Something", [["some_URL", "Leaf"], ["some_url", "Color"]])], "consts": [], "funcs": []})
     return out
 
 
@@ -579,6 +758,19 @@ def expected_json_counts(mm: Dict[str, Any]) -> Tuple[int, int]:
     return ndefs, nprops
 
 
+def expected_xsd_counts(mm: Dict[str, Any]) -> Dict[str, int]:
+    """Number of named root children per tag the XSD must contain — from the entity set alone: a complex type and a
+    group per class, a choice group per class with concrete descendants, a simple type per enumeration that is the
+    type of some property."""
+    fl = flags_of(mm)
+    classes = [t for t in mm["types"] if t["kind"] == "class"]
+    return {
+        "complexType": len(classes),
+        "group": len(classes) + sum(1 for c in classes if fl["has_desc"][c["name"]]),
+        "simpleType": sum(1 for t in mm["types"] if t["kind"] == "enum" and fl["used"][t["name"]]),
+    }
+
+
 def _norm(s: str) -> str:
     """The coarsest normalisation any of the conversions could apply (written from the property text, not
     from the project's naming functions): case and underscores are ignored."""
@@ -619,6 +811,9 @@ def colliding_groups(mm: Dict[str, Any]) -> Dict[str, List[str]]:
             members = props + [_norm(x) for x in c21_mm.all_methods(mm, t)]
             add("members", _dup_names(members))
             add("members", sorted(m for m in members if any(m == pre + q for q in props for pre in ("get", "set"))))
+    # two CONSTRAINED PRIMITIVES: they declare no structure of their own in any SDK target, only derived helpers
+    # (`Verify<Name>` …) — a root cause of its own (no structure check looks at constrained primitives at all)
+    add("cprims", _dup_names([_norm(t["name"]) for t in mm["types"] if t["kind"] == "cprim"]))
     add("structures", _dup_names(structures))
     add("structures", sorted(set(structures) & {"i" + x for x in structures}))
     return groups
@@ -649,6 +844,7 @@ def attribute(target: str, d: Dict[str, str], groups: Dict[str, List[str]], mm_t
         cands.append("functions")
     if scope in ("class-body", "interface-body", "struct-body", "properties", "required", "sequence"):
         cands.append("members")
+    cands.append("cprims")  # (before `structures`: on a tie the more specific group wins)
     cands.append("structures")
     cands = [c for c in cands if c in groups]
     if not cands:
@@ -684,6 +880,16 @@ def judge_output(target: str, out: pathlib.Path, mm: Dict[str, Any]) -> List[Tup
         got = sum(1 for ps in keys["properties"].values() for p in ps if p != "modelType")
         if got < nprops:
             bad.setdefault("C21:jsonschema:members", f"jsonschema: {got} properties in the schema for {nprops} meta-model properties (one overwrote another)")
+    if target == "xsd":
+        try:
+            names = c21_decl.xsd_names(out)
+        except Exception:  # noqa: BLE001  (an unreadable schema is reported by `duplicates` / other properties)
+            names = None
+        if names is not None:
+            for tag, want in expected_xsd_counts(mm).items():
+                got_n = len(set(names.get(tag, [])))
+                if got_n < want:
+                    bad.setdefault(f"C21:xsd:xs:{tag}", f"xsd: {got_n} distinct xs:{tag} names for {want} entities (a definition was dropped or merged)")
     return sorted(bad.items())
 
 
@@ -712,6 +918,18 @@ class Runner:
             fails = judge_output(t, out, c21_mm.strip_methods(mm)) if rc == 0 else []
             res[t] = (verdict, fails)
         return res
+
+
+MAX_FAILURES_PER_SIG = 2
+
+
+def record_failure(ctx: Ctx, mm: Dict[str, Any], what: str, sig: str) -> None:
+    """`ctx.fail`, at most MAX_FAILURES_PER_SIG times per root cause: the runner keeps the first 200 failures only, and
+    the many models that show a KNOWN finding again and again must not push an unlisted one out of that list."""
+    seen: Dict[str, int] = ctx.__dict__.setdefault("_c21_sig_seen", {})
+    seen[sig] = seen.get(sig, 0) + 1
+    if seen[sig] <= MAX_FAILURES_PER_SIG:
+        ctx.fail(mm, what, sig)
 
 
 def check_mm(ctx: Ctx, runner: Runner, mm: Dict[str, Any], stream: str, with_model: bool, generate: bool) -> Dict[str, Any]:
@@ -785,12 +1003,12 @@ def check_mm(ctx: Ctx, runner: Runner, mm: Dict[str, Any], stream: str, with_mod
                 if (v_chk == "err") != (v_cli == "err") or (v_chk.startswith("crash") and v_cli == "ok"):
                     ctx.disagree(f"cli-vs-verify:{t}", mm, verdict, impl[t])
                     if v_chk == "err" and v_cli.startswith("crash"):
-                        ctx.fail(mm, f"{t}: the collision found by verify_for_types is not reported, main.execute raises {v_cli}", f"C21:{t}:collision-not-reported")
+                        record_failure(ctx, mm, f"{t}: the collision found by verify_for_types is not reported, main.execute raises {v_cli}", f"C21:{t}:collision-not-reported")
                 ctx.hit(f"cli:{t}:{v_cli.split(':')[0]}")
             rec["oracle"][t] = [list(f) for f in fails]
             for sig, what in fails:
                 ctx.hit("oracle:" + sig)
-                ctx.fail(mm, what, sig)
+                record_failure(ctx, mm, what, sig)
             # cross-check of the hand-written emitted-scope table: a collision the model predicts
             # in an unchecked scope must be visible in the generated code
             if with_model and not has_methods and verdict == "ok" and unchecked.get(t, "ok").startswith("err") and not fails:
@@ -805,6 +1023,8 @@ def mm_stream(ctx: Ctx) -> Iterator[Tuple[Dict[str, Any], str]]:
         if "mm" in c:
             yield c["mm"], "corpus"
     for mm in enumerated_mms():
+        yield mm, "enumerated"
+    for mm in enumerated_pair_mms():
         yield mm, "enumerated"
     scratch = ctx.scratch()
 
@@ -932,8 +1152,11 @@ def correspond(ctx: Ctx) -> None:
     ctx.extra_cov["rule"] = (
         "conv: (function, identifier) pairs — all 1–3-part identifiers over 10 part shapes (case/digit/empty) x every "
         "naming function + seeded random near-collisions; non-trivial = identifier has an underscore or an upper-case letter. "
-        "verify: meta-models (corpus + 36 hand-made, one per scope kind + seeded random with a near-collision planted in a "
-        "chosen scope kind) x 8 targets; non-trivial = more than one type; distinct by value"
+        "verify: meta-models (corpus + 36 hand-made, one per scope kind + the seed-independent pair matrix: leaf / abstract / "
+        "parent class, enumeration, constrained primitive in every combination x 9 colliding name-pair shapes, also with EQUAL "
+        "content; class vs a type called I<Name>; literal pairs; property pairs at every place of a hierarchy + seeded random "
+        "with a near-collision planted in a chosen scope kind, 40 % of the planted structures of equal content) x 8 targets; "
+        "non-trivial = more than one type; distinct by value"
     )
     _run(ctx, True)
 
